@@ -234,7 +234,7 @@ def parse_type(s):
             return ('blocks', args()[0])
         if name == 'rag':
             return ('rag', args()[0])
-        if name in ('mat', 'flatmat'):
+        if name in ('mat', 'flatmat', 'cube'):
             return (name, args()[0])
         if name == 'tuple':
             return ('tuple', args())
